@@ -30,6 +30,7 @@ vo-%: coqproject
 
 models:
 	-$(MAKE) -k $(MODELS)
+	@mkdir -p build/good; for m in $(MODELS); do test -x $$m && cp -p $$m build/good/; done; true
 
 build/%_model: coq/Extract/Extract_%.v driver/%_main.ml driver/common.ml coq/Extract/Extract_%.vo
 	@mkdir -p build/ocaml/$*
